@@ -33,13 +33,11 @@ ASSUMPTIONS = ['arguments are Python ints (optional ones int or None); the board
                'timed pauses are exercised up to 2*10^5 ms (2^31-1 ms would be 2.8 million writes); the theorem covers every n',
                'var_write_int32 outside the signed 32-bit range raises OverflowError before writing (documented range) - out of domain',
                'write_nickname (free-text argument) and the connection handshake are not part of this check (C16, C05, C15)']
-STAGED = ['regenerated-code bridges (C06_gen_*): proved for 23 legacy helpers and the 14 EBB3 methods that transmit one command; '
-          'not yet bridged to legacyEmit/ebb3Emit: legacy query_enable_motors (the number of PI queries sent depends on the replies), '
-          'EBB3 timed_pause / motors_enable / dio_b_config / var_write_int32 (several commands: a failed acknowledgement latches the '
-          'error and blocks the rest, so they need an acknowledging-script hypothesis) and the EBB3 query methods (var_read, '
-          'var_read_int32, dio_b_read, query_steps, query_voltage, query_current, motors_query_enabled, query_nickname, '
-          'query_statusbyte) and reboot/bootload; these stay covered by the model theorems + differential run + the identical-'
-          'behaviour stream of the regenerated code']
+STAGED = ['regenerated-code bridges (C06_gen_*): all 24 legacy helpers and all 29 EBB3 methods are bridged to legacyEmit / documented; '
+          'hypotheses beyond the script domain: legacy query_enable_motors needs every PI reply to carry the marker "PI," '
+          '(C06Gen.RepliesFor); EBB3 timed_pause / motors_enable / dio_b_config / var_write_int32 / var_read_int32 need the '
+          'acknowledging-script hypothesis C06Gen.AckFor (Ebb3.Acked; QL payloads integers, QE payload = the board state); '
+          'reboot / bootload need Ebb3Gen.RebootOk (a write fault is of a class their handler names)']
 
 B = [0, 1, -1, 5, 6, 749, 750, 751, 1500, 2 ** 31 - 1, -2 ** 31]
 BOPT = [None] + B
